@@ -153,8 +153,20 @@ def main() -> int:
             t0 = time.monotonic()
             try:
                 if not fails(scn_r):
-                    emit({"type": "harness_error", "i": i, "seed": seed, "trace": f"violation {clause} did not reproduce in-process"})
-                    return 3
+                    # Not reproducible in this (long-lived) process: something outside the
+                    # simulator's control (object identity / allocator state, S6) may be
+                    # involved.  Hand the unminimised scenario to the driver, which
+                    # replays it in fresh interpreters and reports it only if it
+                    # reproduces there, every time.
+                    scn_r["expect"] = {"clause": clause, "digest": None}
+                    scn_r["violation"] = v0
+                    out_dir = os.path.join(cfg.get("replay_dir") or os.path.join(VERIF, "replays", cfg["check"]))
+                    os.makedirs(out_dir, exist_ok=True)
+                    path = os.path.join(out_dir, f"{seed}-{clause}.unminimised.json")
+                    with open(path, "w") as f:
+                        json.dump(scn_r, f, indent=1, default=str)
+                    emit({"type": "unreproduced", "i": i, "seed": seed, "clause": clause, "replay": path, "violation": v0})
+                    continue
                 small = shrink.minimise(
                     scn_r,
                     fails,
